@@ -108,7 +108,10 @@ class MathSimplification:
             newbody: list[AST] = []
             agg_conditions: dict[Sign, set[AST]] = defaultdict(set)
             for blit in stm.body:
-                expr_list = gb.to_sympy(blit)
+                try:
+                    expr_list = gb.to_sympy(blit)
+                except Exception:  # pylint: disable=broad-exception-caught
+                    expr_list = None  # e.g. sympy refuses a constant 'modulo by zero'
                 if expr_list is None:
                     newbody.append(blit)
                     continue
